@@ -92,3 +92,110 @@ Theorem pointer_level_wheel_refines_due_map : forall n i ops,
   Forall2 (@Permutation (Z * Z)) (crun (cinit n i) ops) (sp_run i [] ops).
 Proof. exact concrete_refines_due_map. Qed.
 Print Assumptions pointer_level_wheel_refines_due_map.
+
+(* ------------------------------------------------------------------ *)
+(* Counting forms over whole histories: how often, and with what, the callback runs
+   for a key during ANY continuation [a] that does not touch the key (any wheel size,
+   any interval, any prefix, continuation of any length: before, at and after the due
+   tick).  "Exactly once, at the floor(d/interval)-th tick, with the last value". *)
+From GZ Require Import C12.Api C12.ApiProofs.
+
+Theorem set_timer_fires_exactly_once : forall n i pre k v d a,
+  1 <= n -> 1 <= i -> i <= d ->
+  forallb (fun o => negb (touches k o)) a = true ->
+  kfilter k (concat (run (final (init n i) (pre ++ [OSet k v d])) a)) =
+  if d / i <=? ticks a then [(k, v)] else [].
+Proof. exact set_fires_once. Qed.
+Print Assumptions set_timer_fires_exactly_once.
+
+Theorem moved_timer_fires_exactly_once : forall n i pre k v d a,
+  1 <= n -> 1 <= i -> i <= d ->
+  pending (final (init n i) pre) k = Some v ->
+  forallb (fun o => negb (touches k o)) a = true ->
+  kfilter k (concat (run (final (init n i) (pre ++ [OMove k d])) a)) =
+  if d / i <=? ticks a then [(k, v)] else [].
+Proof. exact move_fires_once. Qed.
+Print Assumptions moved_timer_fires_exactly_once.
+
+Theorem removed_timer_fires_zero_times : forall n i pre k a,
+  1 <= n -> 1 <= i ->
+  forallb (fun o => negb (sets k o)) a = true ->
+  kfilter k (concat (run (final (init n i) (pre ++ [ORemove k])) a)) = [].
+Proof. exact removed_fires_zero_times. Qed.
+Print Assumptions removed_timer_fires_zero_times.
+
+(* after Drain (which delivered it, drain_exactly_once) a timer does not fire again *)
+Theorem drained_timer_fires_zero_times : forall n i pre k a,
+  1 <= n -> 1 <= i ->
+  forallb (fun o => negb (sets k o)) a = true ->
+  kfilter k (concat (run (final (init n i) (pre ++ [ODrain])) a)) = [].
+Proof. exact drained_fires_zero_times. Qed.
+Print Assumptions drained_timer_fires_zero_times.
+
+(* The hypothesis "a delay of at least one interval" of the property text cannot be
+   dropped for MoveTimer: a pending timer moved with 0 < d < interval runs at once and
+   stays pending, i.e. runs twice (moveTask, `task.delay < tw.interval`). *)
+Theorem move_below_one_interval_fires_twice :
+  exists n i pre k v d a,
+    1 <= n /\ 1 <= i /\ 0 < d < i /\
+    pending (final (init n i) pre) k = Some v /\
+    forallb (fun o => negb (touches k o)) a = true /\
+    kfilter k (concat (run (final (init n i) pre) (OMove k d :: a))) = [(k, v); (k, v)].
+Proof. exact sub_interval_move_fires_twice. Qed.
+Print Assumptions move_below_one_interval_fires_twice.
+
+(* ------------------------------------------------------------------ *)
+(* The public API: argument validation and Stop (Api.v). *)
+
+(* every history of calls (valid, rejected, before and after Stop): same callbacks and
+   same results as the API over the due-map *)
+Theorem api_refines_due_map : forall n i ops,
+  1 <= n -> 1 <= i -> arun (ainit n i) ops = asp_run i (false, []) ops.
+Proof. exact api_refines_spec. Qed.
+Print Assumptions api_refines_due_map.
+
+(* the wheel's state only depends on the calls that passed the argument check before
+   the first Stop: rejected calls (nil key, delay <= 0) change nothing *)
+Theorem rejected_calls_change_nothing : forall n i ops,
+  ast (afinal (ainit n i) ops) = final (init n i) (requests ops) /\
+  aclosed (afinal (ainit n i) ops) = has_stop ops.
+Proof. exact api_state_is_run_of_requests. Qed.
+Print Assumptions rejected_calls_change_nothing.
+
+(* hence the exactness theorem for histories of API calls, rejected ones included *)
+Theorem api_fires_exactly_at_due_tick : forall n i pre k v d a o v',
+  1 <= n -> 1 <= i -> i <= d ->
+  has_stop (pre ++ ASet (Some k) v d :: a) = false ->
+  forallb (fun o => negb (atouches k o)) a = true -> atouches k o = false ->
+  In (k, v') (snd (fst (astep (afinal (ainit n i) (pre ++ ASet (Some k) v d :: a)) o))) <->
+  (o = ATick /\ aticks a + 1 = d / i /\ v' = v).
+Proof. exact api_set_fires_at_due. Qed.
+Print Assumptions api_fires_exactly_at_due_tick.
+
+(* after Stop: no callback runs, no call succeeds, nothing changes *)
+Theorem stopped_wheel_is_inert : forall n i pre post o,
+  let a := afinal (ainit n i) (pre ++ AStop :: post) in
+  snd (fst (astep a o)) = [] /\ snd (astep a o) <> ROk /\ fst (fst (astep a o)) = a.
+Proof. exact closed_wheel_is_inert. Qed.
+Print Assumptions stopped_wheel_is_inert.
+
+(* NewTimingWheel accepts exactly the configurations the theorems above speak about *)
+Theorem constructor_accepts_exactly_the_hypotheses : forall n i e,
+  new_accepts n i e = true <-> (1 <= n /\ 1 <= i /\ e = true).
+Proof. exact new_accepts_iff. Qed.
+Print Assumptions constructor_accepts_exactly_the_hypotheses.
+
+(* non-vacuity: a history with rejected calls around a Set, the timer fires at tick 3;
+   a Stop before the due tick and nothing fires *)
+Example ex_api_rejected_calls_harmless :
+  map fst (arun (ainit 3 10)
+    [ASet (Some 1) 5 30; ASet None 6 30; ASet (Some 1) 7 0; AMove (Some 1) (-10); ATick; ATick; ATick]) =
+  [[]; []; []; []; []; []; [(1, 5)]].
+Proof. vm_compute. reflexivity. Qed.
+Example ex_api_stop :
+  arun (ainit 3 10) [ASet (Some 1) 5 20; ATick; AStop; ATick; ADrain; AStop] =
+  [([], ROk); ([], ROk); ([], ROk); ([], RErrClosed); ([], RErrClosed); ([], RPanic)].
+Proof. vm_compute. reflexivity. Qed.
+Example ex_once :
+  kfilter 7 (concat (run (final (init 10 1000) (ex_pre ++ [OMove 7 25500])) (repeat OTick 60))) = [(7, 70)].
+Proof. vm_compute. reflexivity. Qed.
